@@ -48,13 +48,17 @@ def run(chk):
         with MT.Recorder() as rec:
             N = 5 if chk.tier == "quick" else 100
             for i in range(N):
-                sc = MT.scenario(rng, regime=int((4, 4, 6, 4, 0)[i % 5]), n=int(rng.integers(2, 14)))
+                # the first scenarios always have a velocity gradient that varies WITHIN an update
+                forced = {0: "time", 1: "position"}.get(i)
+                sc = MT.scenario(rng, regime=int((4, 4, 6, 4, 0)[i % 5]), n=int(rng.integers(2, 14)), lkind=forced)
                 h1 = c01.run_history(rec, dict(sc, rate=1.0))
                 c01.validate_traces(chk, h1, bad)
                 if h1["fails"]:
                     mon += [(sc, 1.0, m) for _, m in h1["fails"]]
                     continue
                 ks = KS if chk.tier == "thorough" else [KS[j] for j in rng.choice(len(KS), size=5, replace=False)]
+                if forced and 1e-12 not in ks:
+                    ks = list(ks) + [1e-12]
                 for k in ks:
                     if k == 1.0:
                         continue
